@@ -675,7 +675,14 @@ func (r *whRun) verify() {
 		// (sends are in queue order, so nothing can follow it), or until as
 		// many 200s as notifications exist were given, or the budget ends
 		e.mu.Lock()
-		complete := waitCond(e.cond, time.Now().Add(t38.ReplyTimeout), func() bool {
+		// budget: until the case is 20 s old (a verdict "stalled" must be
+		// reached while the oldest notification is still inside the 30 s
+		// retention), but at least 10 s from now
+		budget := 20*time.Second - time.Duration(now()-r.t0)
+		if budget < 10*time.Second {
+			budget = 10 * time.Second
+		}
+		complete := waitCond(e.cond, time.Now().Add(budget), func() bool {
 			if e.listenErr != "" || len(e.ok) >= len(X) {
 				return true
 			}
@@ -735,7 +742,7 @@ func (r *whRun) verify() {
 					bad("webhook-lost", "hook %d: notification %d of %d was never answered 200 although later ones (and the closing one) were: %s", i, k, len(X), x)
 				} else if !complete {
 					if timingUnsafe == "" {
-						o.fail("webhook-stalled", "hook %d: %d of %d notifications were answered 200 and nothing more arrived for %v after the endpoint recovered", i, len(G), len(X), t38.ReplyTimeout)
+						o.fail("webhook-stalled", "hook %d: %d of %d notifications were answered 200 and nothing more arrived for %v after the endpoint recovered", i, len(G), len(X), budget.Round(time.Second))
 					} else {
 						o.inconclusive = fmt.Sprintf("hook %d: stream incomplete (%d of %d) — %s", i, len(G), len(X), timingUnsafe)
 					}
